@@ -250,6 +250,13 @@ func ledgerMain(s ledgerSpec, args []string) int {
 		sched.WorkerMain(c03Scenarios())
 		return 0
 	}
+	if s.id == "C01" && fs.NArg() >= 1 && fs.Arg(0) == "schedworker" {
+		sched.WorkerMain(c01Scenarios())
+		return 0
+	}
+	if s.id == "C01" && *replay != "" && isSchedReplay(*replay) {
+		return sched.ReplayFile("C01", c01Scenarios(), *replay)
+	}
 	if s.id == "C06" && fs.NArg() >= 1 && fs.Arg(0) == "schedworker" {
 		sched.WorkerMain(c06Scenarios())
 		return 0
@@ -327,6 +334,13 @@ func ledgerMain(s ledgerSpec, args []string) int {
 	space.FillEvidence(rep, total)
 	if s.id == "C03" && *run == "" {
 		ex, div := c03SchedRun(rep, *procs)
+		if !ex {
+			rep.Set("exhaustive", false)
+		}
+		total.Diverged += div
+	}
+	if s.id == "C01" && *run == "" {
+		ex, div := c01SchedRun(rep, *procs)
 		if !ex {
 			rep.Set("exhaustive", false)
 		}
